@@ -516,7 +516,7 @@ def judge(ctx, trace, scenarios, confirm=True):
         n = ctx.extra["consnet_confirmed_slow"] = ctx.extra.get("consnet_confirmed_slow", 0) + 1
         ctx.extra["consnet_late_scenarios"] = ctx.extra.get("consnet_late_scenarios", 0) + len(late)
         byname = {s["name"]: s for s in scenarios}
-        again = [byname[x] for x in late if x in byname]
+        again = [byname[x] for x in late if x in byname][:8]      # (a tree on which many scenarios miss something: a sample is enough)
         ind = os.path.join(ctx.work, "in-c19net-slow%d" % n)
         os.makedirs(ind, exist_ok=True)
         json.dump({"scenarios": again, "slow": True}, open(os.path.join(ind, "input.json"), "w"))
@@ -589,4 +589,137 @@ def mesh_scenarios(rnd, q):
 
 
 def selftest(ctx, trace):
-    pass
+    """Binding self-tests: corrupted copies of good recorded scenarios must be rejected with the right predicate.
+      twice      a hand-over to the service recorded twice                        -> Delivery:twice
+      lost       the hand-over of a payload that had to be delivered removed      -> Delivery:missing
+      forged     a delivered payload's witness recorded as not verifying         -> InvalidAccepted:delivered
+      norelay    one connection never told about a delivered payload              -> Relay:missing
+      agreement  the ledger's block differs from the one the service queued       -> Agreement
+      feed       the reference ledger refuses the served block                    -> Acceptable
+      undecided  the height was not decided                                       -> Stalled:undecided
+      noblockinv one connection never told about the new block                    -> BlockOut:not-announced
+      wrongblock the block served differs from the one asked for                  -> BlockOut:wrong-block
+      behind     every peer was ahead when the service started                    -> ServiceStart:started-behind
+      unverified the node answered a proposal one transaction of which it only ever got in bad copies -> ProposalTxs:accepted-unverified
+    """
+    ev = vlib.read_ndjson(trace)
+    starts = segments(ev)
+    ends = {}
+    for i, e in enumerate(ev):
+        if e["event"] == "end":
+            ends[starts[i]] = i
+    done = {}
+
+    def seg(s):
+        return [dict(e) for e in ev[s:ends[s] + 1]]
+    for s, en in sorted(ends.items()):
+        if ev[s].get("kind") != "single":
+            continue
+        sg = ev[s:en + 1]
+        xd = {e["x"]: e for e in sg if e["event"] == "xdef"}
+        dl = [j for j, e in enumerate(sg) if e["event"] == "deliver" and xd.get(e["x"], {}).get("cls") == "ok"]
+        if dl and "twice" not in done:
+            c = seg(s)
+            c.insert(dl[0] + 1, dict(c[dl[0]]))
+            done["twice"] = (c, "Delivery:twice")
+        # a payload sent once, delivered, relayed: candidates for lost / forged / norelay
+        for j in dl:
+            x, hx = sg[j]["x"], sg[j]["hx"]
+            sends = [k for k, e in enumerate(sg) if e["event"] == "s" and e.get("m") == "extensible" and e.get("hx") == hx]
+            if len(sends) != 1 or sends[0] > j or xd[x].get("kind") != "" or xd[x]["type"] not in ("PrepareResponse", "Commit", "PrepareRequest"):
+                continue
+            nxt = next((k for k in range(j, len(sg)) if sg[k]["event"] == "sync"), None)
+            if nxt is None or sg[nxt]["h"] >= xd[x]["end"]:
+                continue
+            if "lost" not in done:
+                c = seg(s)
+                del c[j]
+                done["lost"] = (c, "Delivery:missing")
+            if "forged" not in done:
+                c = seg(s)
+                for e in c:
+                    if e["event"] == "xdef" and e["x"] == x:
+                        e["cls"] = "bad"
+                done["forged"] = (c, "InvalidAccepted:delivered")
+            told = [k for k, e in enumerate(sg) if e["event"] == "r" and e.get("m") == "inv" and e.get("typ") == "ext" and hx in e["hs"]]
+            sender = sg[sends[0]]["p"]
+            other = [k for k in told if sg[k]["p"] != sender]
+            if other and "norelay" not in done:
+                victim = sg[other[0]]["p"]
+                conn_before = any(e["event"] == "conn" and e["p"] == victim for e in sg[:sends[0]]) and any(e["event"] == "epoch" for e in sg[:sends[0]])
+                if conn_before:
+                    c = [dict(e) for k, e in enumerate(sg) if not (k in told and e["p"] == victim)]
+                    done["norelay"] = (c, "Relay:missing")
+        qs = [j for j, e in enumerate(sg) if e["event"] == "queued"]
+        ac = [j for j, e in enumerate(sg) if e["event"] == "acc"]
+        if qs and ac and "agreement" not in done:
+            c = seg(s)
+            c[ac[0]]["b"] = "00" * 7
+            done["agreement"] = (c, "Agreement")
+        fd = [j for j, e in enumerate(sg) if e["event"] == "feed" and e["ok"]]
+        if fd and "feed" not in done:
+            c = seg(s)
+            c[fd[0]]["ok"] = False
+            done["feed"] = (c, "Acceptable")
+        dc = [j for j, e in enumerate(sg) if e["event"] == "decide" and e["decided"]]
+        if dc and "undecided" not in done:
+            c = seg(s)
+            c[dc[0]]["decided"] = False
+            done["undecided"] = (c, "Stalled:undecided")
+        bi = [j for j, e in enumerate(sg) if e["event"] == "r" and e.get("m") == "inv" and e.get("typ") == "block"]
+        if bi and ac and "noblockinv" not in done:
+            victim = sg[bi[0]]["p"]
+            first_conn = next(j for j, e in enumerate(sg) if e["event"] == "conn" and e["p"] == victim)
+            if any(e["event"] == "epoch" for e in sg[first_conn:ac[0]]) and not any(e["event"] == "close" and e["p"] == victim for e in sg):
+                c = [dict(e) for k, e in enumerate(sg) if not (k in bi and e["p"] == victim)]
+                done["noblockinv"] = (c, "BlockOut:not-announced")
+        rb = [j for j, e in enumerate(sg) if e["event"] == "r" and e.get("m") == "block"]
+        if rb and "wrongblock" not in done:
+            c = seg(s)
+            c[rb[0]]["b"] = "11" * 7
+            done["wrongblock"] = (c, "BlockOut:wrong-block")
+        st = [j for j, e in enumerate(sg) if e["event"] == "svcstart"]
+        if st and ev[s]["nodes"][0]["minp"] > 0 and "behind" not in done and any(e["event"] == "conn" for e in sg[:st[0]]):
+            c = seg(s)
+            for e in c[:st[0]]:
+                if e["event"] == "conn":
+                    e["adv"] = c[st[0]]["h"] + 5
+            done["behind"] = (c, "ServiceStart:started-behind")
+        # the node's PrepareResponse to a proposal naming a transaction that reached it only in this epoch
+        for j, e in enumerate(sg):
+            if "unverified" in done or e["event"] != "own" or e["type"] != "PrepareResponse":
+                continue
+            prs = [d for d in sg[:j] if d["event"] == "deliver" and xd.get(d["x"], {}).get("type") == "PrepareRequest" and xd[d["x"]]["h"] == e["h"] and xd[d["x"]]["view"] == e["view"]]
+            if len(prs) != 1 or not xd[prs[0]["x"]]["txs"]:
+                continue
+            pooled = set()
+            for d in sg[:j]:
+                if d["event"] == "sync":
+                    pooled |= set(d["pool"])
+            cand = [t for t in xd[prs[0]["x"]]["txs"] if t not in pooled]
+            if cand:
+                c = seg(s)
+                for d in c:
+                    if d["event"] == "s" and d.get("m") == "tx" and d["t"] == cand[0]:
+                        d["ok"] = False
+                done["unverified"] = (c[:j + 1] + [{"event": "end"}], "ProposalTxs:accepted-unverified")
+    want = ("twice", "lost", "forged", "norelay", "agreement", "feed", "undecided", "noblockinv", "wrongblock", "behind", "unverified")
+    missing = [w for w in want if w not in done]
+    if len(done) < 8 or any(w in missing for w in ("twice", "forged", "agreement", "feed", "undecided")):
+        raise vlib.Inconclusive("consnet self-test: no place to corrupt the trace for %s" % missing)
+    segs, expect = [], []
+    for name, (c, pred) in sorted(done.items()):
+        a = len(segs)
+        segs += c
+        expect.append((name, pred, a + 1, len(segs)))
+    path = os.path.join(ctx.work, "selftest-consnet.ndjson")
+    vlib.write_ndjson(path, segs)
+    st, tr = ctx.states, ctx.transitions
+    fails = ctx.trace_judge(SUB, "ConsNetTrace.tla", "Trace_ConsNet.cfg", path, timeout=900)
+    ctx.states, ctx.transitions = st, tr
+    for name, pred, a, b in expect:
+        if not any(a <= f["line"] <= b and pred in f["what"] for f in fails):
+            raise vlib.Inconclusive("consnet binding self-test %s: corrupted trace was not rejected (%s expected; got %s)" % (
+                name, pred, [(f["line"], f["what"]) for f in fails if a <= f["line"] <= b][:6]))
+        ctx.extra["consnet_binding_selftests"] = ctx.extra.get("consnet_binding_selftests", 0) + 1
+    ctx.extra["consnet_binding_selftests_skipped"] = missing
